@@ -41,7 +41,7 @@ from sim.harness import draw_knobs
 ID = "C06"
 LEVEL = "exploration"
 RUNS = {"quick": 3000, "thorough": 100000}
-WALL_CAP = {"quick": 100, "thorough": 1500}
+WALL_CAP = {"quick": 75, "thorough": 1500}
 RULE = ("one case = one generated history for 1-3 games: config swarm (balls_per_game 1-3, max_players 1-4, "
         "num_balls_known 1-5, wait_for_empty_playfields on/off, handler priority), a chain of timed requests (start "
         "button / start event, add-player button / event, drains of k balls, armed ball saves, extra-ball awards, "
@@ -58,10 +58,12 @@ PROBES = ["game_completed", "second_game", "op_inside_hold", "add_inside_hold", 
           "late_player_joined", "add_denied", "end_game_during_start", "slam_during_game", "tilt_during_ball",
           "four_players", "restart_after_end", "playfield_wait", "sync_handler_op", "multiball_drained",
           "end_game_midgame", "natural_game_end_multi_player", "hop_op", "award_in_ball_end_handler",
+          "hold_mode_summary_stopping", "game_end_waits_for_stopping_mode",
           "hold_game_starting", "hold_player_adding", "hold_player_turn_starting", "hold_ball_starting",
           "hold_ball_ending", "hold_player_turn_ending", "hold_game_ending"]
 REAL = ["mpf.modes.game.code.game.Game (AsyncMode coroutine)", "mpf.modes.attract.code.attract.Attract",
-        "mpf.modes.tilt.code.tilt.Tilt", "mpf.core.mode_controller.ModeController + one game mode",
+        "mpf.modes.tilt.code.tilt.Tilt", "mpf.core.mode_controller.ModeController + two game modes (base: per ball; summary: ball_ended .. "
+        "game_ending, its mode_summary_stopping queue held open by the harness)",
         "mpf.core.ball_controller.BallController (start gate, wait_until_playfields_are_empty)", "mpf.core.player.Player",
         "mpf.core.events.EventManager (queue / relay / boolean events)", "mpf.core.switch_controller", "MachineController boot"]
 STUBS = ["event loop (SimLoop: virtual time, stalls, tie order)", "clock (SimClock)", "virtual hardware platform",
@@ -83,7 +85,9 @@ SEQ = ["game_will_start", "game_starting", "game_started",
 LIFE = set(SEQ)
 OTHER_TAPS = {"player_add_request", "player_will_add", "player_adding", "player_added", "balls_in_play", "tilt_clear",
               "ball_drain", "tilt", "slam_tilt", "game_start"}
-ANCHORS = SEQ + ["player_adding", "player_added", "player_add_request"]
+# queue event of the extra game mode `summary` (started at ball_ended, stopped at game_ending / summary_stop)
+SUMMARY_STOPPING = "mode_summary_stopping"
+ANCHORS = SEQ + ["player_adding", "player_added", "player_add_request", SUMMARY_STOPPING]
 # anchors are drawn with extra weight on the ball events (most requests refer to the ball in progress)
 ANCHOR_PICK = ANCHORS + ["ball_will_start", "ball_starting", "ball_started", "ball_started", "ball_will_end", "ball_ending",
                          "ball_ended", "player_turn_started", "player_turn_ended", "player_turn_starting", "game_ended"]
@@ -137,7 +141,8 @@ def plan(ch, tier):
             ("eb", 2.0 if ch.flag("p.eb", 0.6) else 0),
             ("bip", 2.0 if ch.flag("p.bip", 0.5) else 0),
             ("save", 1.5 if ch.flag("p.save", 0.5) else 0),
-            ("deny", 0.7 if ch.flag("p.deny", 0.3) else 0)]
+            ("deny", 0.7 if ch.flag("p.deny", 0.3) else 0),
+            ("sum_stop", 0.8 if ch.flag("p.sum_stop", 0.25) else 0)]
     if cfg["wait_empty"]:
         # the tilt mode counts playfield.available_balls and then waits for drain *devices*; without ball
         # devices (variant a) that combination has no physical meaning, so tilts only run with the counter off
@@ -179,6 +184,18 @@ def plan(ch, tier):
                         "do": {"a": "eb"}})
             if evn == "ball_ending" and ch.flag("g_eb_hold", 0.5):
                 ops.append({"t": "hold", "ev": "ball_ending", "n": k, "dur": ch.pick("g_eb_dur", [0.0, 0.3, 1.0])})
+    # guided: the stop of the game mode `summary` (stopped by the ball_ending sweep, by game_ending, or by the workload
+    # event summary_stop) is held open, so a ball end / the game end has to wait for a game mode that is still stopping
+    if ch.flag("g_sum_hold", 0.4):
+        durs = [ch.pick("g_sum_dur", [0.01, 0.3, 0.3, 1.0, MAX_HOLD]) for _ in range(3)]
+        for i in range(8):
+            if ch.flag("g_sum_on", 0.6):
+                ops.append({"t": "hold", "ev": SUMMARY_STOPPING, "n": i, "dur": durs[i % 3]})
+        if ch.flag("g_sum_stop", 0.4):
+            ops.append({"t": "anch", "ev": ch.pick("g_sum_ev", ["ball_ended", "player_turn_will_end", "player_turn_ending",
+                                                                "player_turn_ended", "game_will_end"]),
+                        "n": ch.pick("g_sum_k", [0, 0, 1, 2, 3]), "delay": ch.pick("g_sum_delay", [None, 0.0, "h2", 0.1]),
+                        "do": {"a": "sum_stop"}})
     # guided: a new start request in the instants around game_ended (attract restarts, the game mode stops)
     if ch.flag("g_restart", 0.3):
         ops.append({"t": "anch", "ev": ch.pick("gr_ev", ["game_ended", "game_ended", "game_ending", "player_turn_ended"]),
@@ -264,6 +281,7 @@ class Oracle:
         self.t_ended = None
         self.start_pending_t = None
         self.trace = []
+        self.held = {"n": 0, "summary": 0, "t_release": -1.0}       # workload holds (set by execute)
         self.add_req_taps = 0
         self.add_req_taps0 = 0
         self.t_last_added = -1.0
@@ -580,6 +598,8 @@ class Oracle:
         pass
 
     def _on_game_ended(self, t, kw, ph):
+        if self.held["summary"] > 0:
+            self.ctx.probe("game_end_waits_for_stopping_mode")
         self.active = False
         self.t_ended = t
         self.completed += 1
@@ -643,6 +663,12 @@ class Oracle:
             self.ctx.probe("bip_capped")
         self.bip = min(self.nbk, self.bip + 1)
 
+    def quiet_after_end(self, t):
+        """The game ended and every wait was cleared at least LIVE_BOUND ago (the game mode's own stop waits for game
+        modes whose mode_<m>_stopping queue is held, so 'no game is active' is only due after those waits)."""
+        return (not self.active and self.phase in ("idle", "game_ended") and self.held["n"] == 0
+                and (self.t_ended is None or t - max(self.t_ended, self.held["t_release"]) > LIVE_BOUND))
+
     def check_obligations(self, t):
         if self.obl_t is not None and t - self.obl_t > LIVE_BOUND:
             self.v("ball_not_ended", "ball does not end although due",
@@ -653,8 +679,7 @@ class Oracle:
             self.v("start_refused", "start request not accepted while idle",
                    "start request at %.6f while no game was active was not followed by game_will_start" % self.start_pending_t)
             self.start_pending_t = None
-        if (not self.active and self.t_ended is not None and t - self.t_ended > LIVE_BOUND
-                and self.sim.machine.game is not None and self.phase in ("idle", "game_ended")):
+        if self.t_ended is not None and self.quiet_after_end(t) and self.sim.machine.game is not None:
             self.v("game_not_none", "machine.game set after game_ended", "machine.game is still %r %.3f s after game_ended"
                    % (self.sim.machine.game, t - self.t_ended))
 
@@ -744,7 +769,8 @@ def execute(ctx, plan):
     ev.add_handler("player_add_request", deny_handler, priority=100000)
 
     # -- requests ------------------------------------------------------------------------------
-    held = {"n": 0}
+    held = {"n": 0, "summary": 0, "t_release": -1.0}
+    orc.held = held
 
     def do_action(do, how, at=None):
         now = loop.time()
@@ -773,7 +799,7 @@ def execute(ctx, plan):
             if not orc.active and a != "add_ev":
                 # 'after the game has ended no game is active and a new one can start': only required once the
                 # machine had time to settle (attract restarts within the instant of game_ended)
-                settled = orc.phase in ("idle", "game_ended") and (orc.t_ended is None or now - orc.t_ended > LIVE_BOUND)
+                settled = orc.quiet_after_end(now)
                 if settled and orc.start_pending_t is None:
                     orc.start_pending_t = now
                     if orc.games >= 1:
@@ -831,6 +857,8 @@ def execute(ctx, plan):
             elif g is not None and orc.active:
                 orc.req_end_game(now)
                 g.end_game()
+        elif a == "sum_stop":
+            ev.post("summary_stop")
         elif a in ("tilt", "slam") and not track:
             sw = "s_slam_tilt" if a == "slam" else "s_tilt"
             orc.req_tilt(now, a == "slam")
@@ -875,7 +903,7 @@ def execute(ctx, plan):
             loop.call_soon(hop, k - 1, do)
 
     def make_anchor_handler(name):
-        is_queue = name in QUEUE_EVENTS
+        is_queue = name in QUEUE_EVENTS or name == SUMMARY_STOPPING
 
         def handler(queue=None, **kwargs):
             n = seen.get(name, 0)
@@ -897,9 +925,14 @@ def execute(ctx, plan):
                         queue.clear()
                     else:
                         held["n"] += 1
+                        if name == SUMMARY_STOPPING:
+                            held["summary"] += 1
 
                         def release():
                             held["n"] -= 1
+                            held["t_release"] = loop.time()
+                            if name == SUMMARY_STOPPING:
+                                held["summary"] -= 1
                             ctx.log("release", name, n, t=loop.time())
                             queue.clear()
                         sim.after(dur, release)
